@@ -4,10 +4,11 @@ package main
 
 // C11: FINDNODES replies (responder) and acceptance of NODES replies (asker).  Lines (concrete inputs ; derived abstract view | observable):
 //
-//	fn <selfkey> <selfip|-> <askerip:port> <h|t> <dists> <enrhex:live,...> ; <selfrec> <askerflags> <table> | ok <replylen> <tags> / err / nil
+//	fn <selfkey> <selfip|-> <askerip:port> <h|t|s> <dists> <enrhex:live,...> ; <selfrec> <askerflags> <table> <initdone> | ok <replylen> <tags> / err / nil
+//	   h = handleFindNodes directly, t = through handleTalkRequest, s = handleFindNodes on a table that is still seeding (Table.isInitDone() false)
 //	   the table (after the call) is bucket/bucket/... with entries tag:id:flags:port:size:valid:live, "-" for an empty bucket
 //	pn <senderenr> <dists|N> <resphex> <genflags> ; <senderrec> <E | recs tag:id:flags:port:size:valid:gen> | ok <tags> / err / panic
-//	dg <reqidlen> <resplen> | <sizes of the datagrams the responder wrote while serving the request>
+//	dg <reqidlen> <resplen> | <sizes of the datagrams the asker read from the responder during the request> / unobserved
 //	lfn <dists> ; <responder-self-rec> <table of the responder> | ok <tags the asker's findNodes returned> / err
 import (
 	"crypto/sha256"
@@ -58,7 +59,24 @@ func c11parseDists(s string) []uint {
 // c11execFn builds the table from the insert list on the instance of the given key and asks it.
 func c11execFn(c *Ctx, keyhex, sip, asker, via string, dists []uint, ins []c11ins) {
 	inst := hInstance(keyhex, sip, "history")
-	hFill(inst, ins)
+	if via == "s" {
+		// a table that is still seeding (initDone open): the records are inserted the way loadSeedNodes does it and the main
+		// loop is started only after the request
+		var ns []*enode.Node
+		var lv []bool
+		for _, x := range ins {
+			if n, err := hNodeFromBytes(x.enr); err == nil {
+				ns = append(ns, n)
+				lv = append(lv, x.live)
+			}
+		}
+		if err := inst.SeedingTable(ns, lv); err != nil {
+			panic(err)
+		}
+		defer inst.FinishSeeding()
+	} else {
+		hFill(inst, ins)
+	}
 	ap, err := netip.ParseAddrPort(asker)
 	if err != nil {
 		panic(err)
@@ -121,8 +139,13 @@ func c11execFn(c *Ctx, keyhex, sip, asker, via string, dists []uint, ins []c11in
 			c.Count(fmt.Sprintf("fn_reply_records_%d", hBucket(len(m.Enrs))))
 		}
 	}
-	c.Emit("fn %s %s %s %s %s %s ; %s %d %s | %s", keyhex, sip, asker, via, c11dists(dists), c11insStr(ins),
-		selfs, portalwire.VerifHRelayFlags(addr.IP), tab, obs)
+	initDone := 0
+	if inst.TableInitDone() {
+		initDone = 1
+	}
+	c.Count(fmt.Sprintf("fn_table_init_done_%d", initDone))
+	c.Emit("fn %s %s %s %s %s %s ; %s %d %s %d | %s", keyhex, sip, asker, via, c11dists(dists), c11insStr(ins),
+		selfs, portalwire.VerifHRelayFlags(addr.IP), tab, initDone, obs)
 }
 
 // c11execPn feeds a NODES response to processNodes of the asking instance.
@@ -368,7 +391,13 @@ func (g *c11gen) fnCase() {
 	if len(ds) <= 256 && r.Intn(3) == 0 {
 		via = "t"
 	}
-	c11execFn(g.c, g.keys[ki], g.sips[ki], g.asker(), via, ds, ins)
+	asker := g.asker()
+	if r.Intn(4) == 0 {
+		// the same request while the table is still seeding and, on the same table, after seeding has finished
+		c11execFn(g.c, g.keys[ki], g.sips[ki], asker, "s", ds, ins)
+		via = "h"
+	}
+	c11execFn(g.c, g.keys[ki], g.sips[ki], asker, via, ds, ins)
 }
 
 // pnCase builds a NODES response from a signing pool.
@@ -505,10 +534,19 @@ func c11live(c *Ctx, r *Rng, rounds int) {
 	ka, kb := hKey(r), hKey(r)
 	a := hInstance(hKeyHex(ka), "-", "history")
 	b := hInstance(hKeyHex(kb), "-", "history")
-	if _, err := a.Ping(b.Self()); err != nil { // handshake, so that later replies are ordinary packets
-		c.Emit("live-error ping | %v", err)
+	// handshake, so that later replies are ordinary packets (retried: on a loaded machine the first RPC may time out)
+	var perr error
+	for try := 0; try < 6; try++ {
+		if _, perr = a.Ping(b.Self()); perr == nil {
+			break
+		}
+	}
+	if perr != nil {
+		c.Count("live_unobserved_no_handshake")
+		c.Emit("live-unobserved ping | %s", strings.ReplaceAll(perr.Error(), " ", "_"))
 		return
 	}
+	bport := b.Self().UDP()
 	pool := hPool(r, 80)
 	for round := 0; round < rounds; round++ {
 		// signed records (the asker verifies signatures), distances as they fall: mostly 256, 255, 254, ...
@@ -521,20 +559,28 @@ func c11live(c *Ctx, r *Rng, rounds int) {
 		}
 		hFill(b, ins)
 		for _, ds := range [][]uint{{256}, {0}, {255, 256, 254}, {0, 256, 250}, {253, 253, 999, 252}, {}, {254}, {255}} {
-			b.Datagrams()
+			// Attribution of datagrams to this request without a race: the ASKER's socket wrapper logs every datagram it reads
+			// before handing it to discv5, so when findNodes has returned successfully the TALKRESP datagram is in the asker's
+			// log; the responder logs the response length before the response is sent.  Only when the call succeeded and the
+			// responder served exactly one talk request in the window is the pair (response length, datagrams from the
+			// responder) reported; anything else (RPC timeout, a late answer to an earlier request) is "unobserved".
+			a.Datagrams()
 			b.Talks()
 			nodes, err := a.FindNodes(b.Self(), ds)
 			talks := b.Talks()
-			dgs := b.Datagrams()
+			dgs := a.Datagrams()
 			sizes := []string{}
 			for _, d := range dgs {
-				if d.Out {
+				if !d.Out && int(d.Peer.Port()) == bport {
 					sizes = append(sizes, strconv.Itoa(d.Size))
 				}
 			}
-			for _, t := range talks {
-				c.Emit("dg 8 %d | %s", t.RespLen, hTagList(sizes))
+			if err == nil && len(talks) == 1 && len(sizes) > 0 {
+				c.Emit("dg 8 %d | %s", talks[0].RespLen, hTagList(sizes))
 				c.Count("live_datagram")
+			} else {
+				c.Emit("dg 8 0 | unobserved")
+				c.Count("live_datagram_unobserved")
 			}
 			t := newTags()
 			sb := hEnrBytes(b.Self())
